@@ -196,7 +196,7 @@ def playback(base, dst, crate, crate_dir, harness_meta):
     tdir = os.path.join(base, 'target-' + crate)
     cmd = ['cargo', 'kani', '-p', crate, '--lib', '--exact', '--harness', hp, '-Z', 'concrete-playback', '--concrete-playback=inplace',
            '-Z', 'function-contracts', '-Z', 'stubbing', '--target-dir', tdir, '--output-format=terse']
-    rc, out, _ = _run(cmd, dst, int(harness_meta['timeout']) + 600)
+    rc, out, _ = _run(cmd, dst, min(int(harness_meta['timeout']), 600) + 120)
     rep = {'harness': name, 'concrete_values': [], 'native_playback': None}
     # collect generated tests from harness file(s)
     tests = []
@@ -218,7 +218,7 @@ def playback(base, dst, crate, crate_dir, harness_meta):
     env = dict(ENV)
     env['CARGO_TARGET_DIR'] = os.path.join(base, 'target-pb-' + crate)
     cmd = ['cargo', 'kani', 'playback', '-Z', 'concrete-playback', '-p', crate, '--', 'kani_concrete_playback_' + name]
-    rc, out, _ = _run(cmd, dst, 1800, env=env)
+    rc, out, _ = _run(cmd, dst, 900, env=env)
     tail = [ln for ln in out.split('\n') if ('panicked at' in ln or 'test result' in ln or ln.startswith('test ') or 'overflow' in ln
                                              or 'survives' in ln or 'assert' in ln.lower())][:20]
     rep['native_playback'] = {'exit': rc, 'reproduced_on_real_code': ('test result: FAILED' in out), 'output': tail}
